@@ -15,46 +15,30 @@
 // multi-section branch, and for All only on the single-section branch).
 use super::*;
 
-const MAX_LF: usize = 2;
-const MAX_GROUPS: usize = 3;
-const MAX_PASSES: usize = 2;
-const MAX_LEN: usize = 1 + MAX_LF + 1 + MAX_GROUPS * MAX_PASSES;
-
-#[kani::proof]
-#[kani::unwind(12)]
-fn section_order_contract() {
-    let num_lf_groups: usize = kani::any();
-    let num_groups: usize = kani::any();
-    let num_passes: usize = kani::any();
-    kani::assume(1 <= num_lf_groups && num_lf_groups <= MAX_LF);
-    kani::assume(1 <= num_groups && num_groups <= MAX_GROUPS);
-    kani::assume(1 <= num_passes && num_passes <= MAX_PASSES);
+/// One instantiation: concrete table shape (Vec construction with a symbolic length exhausts CBMC's memory),
+/// symbolic permutation, symbolic section.
+fn section_order<const NUM_LF: usize, const NUM_GROUPS: usize, const NUM_PASSES: usize, const LEN: usize>() {
+    let (num_lf_groups, num_groups, num_passes) = (NUM_LF, NUM_GROUPS, NUM_PASSES);
     let single = num_groups == 1 && num_passes == 1;
     let len = if single { 1 } else { 1 + num_lf_groups + 1 + num_groups * num_passes };
+    assert!(len == LEN);
 
     // a symbolic permutation of 0..len (or none)
     let permuted: bool = kani::any();
-    let perm: [usize; MAX_LEN] = kani::any();
-    let mut original_to_bitstream = Vec::new();
-    let mut bitstream_to_original = Vec::new();
-    let mut groups = Vec::new();
+    let perm: [usize; LEN] = kani::any();
     let mut i = 0;
-    while i < MAX_LEN {
-        if i < len {
-            groups.push(TocGroup { kind: TocGroupKind::All, offset: 0, size: 0 });
-            if permuted {
-                kani::assume(perm[i] < len);
-                let mut j = 0;
-                while j < i {
-                    kani::assume(perm[j] != perm[i]);
-                    j += 1;
-                }
-                original_to_bitstream.push(perm[i]);
-                bitstream_to_original.push(0); // not read by the function under contract
-            }
+    while i < LEN {
+        kani::assume(perm[i] < LEN);
+        let mut j = 0;
+        while j < i {
+            kani::assume(perm[j] != perm[i]);
+            j += 1;
         }
         i += 1;
     }
+    let groups = [TocGroup { kind: TocGroupKind::All, offset: 0, size: 0 }; LEN].to_vec();
+    let original_to_bitstream = if permuted { perm.to_vec() } else { Vec::new() };
+    let bitstream_to_original = if permuted { [0usize; LEN].to_vec() } else { Vec::new() }; // not read by the function under contract
     let toc = Toc { num_lf_groups, num_groups, groups, bitstream_to_original, original_to_bitstream, total_size: 0 };
     assert!(toc.is_single_entry() == single, "[C14] single-section frame <=> one group and one pass");
 
@@ -107,8 +91,16 @@ fn section_order_contract() {
             assert!(toc.group_index_bitstream_order(kind2) < r, "[C14] unpermuted: LfGlobal < LfGroups (raster) < HfGlobal < pass-major PassGroups");
         }
     }
-    kani::cover!(single);
-    kani::cover!(!single && permuted && r != order && matches!(kind, TocGroupKind::GroupPass { pass_idx: 1, .. }));
-    kani::cover!(!single && !permuted && matches!(kind, TocGroupKind::HfGlobal));
-    kani::cover!(len == MAX_LEN);
+    kani::cover!(single || LEN > 1);
+    kani::cover!(single || NUM_PASSES == 1 || (permuted && r != order && matches!(kind, TocGroupKind::GroupPass { pass_idx: 1, .. })));
+    kani::cover!(single || (!permuted && matches!(kind, TocGroupKind::HfGlobal)));
+}
+
+#[kani::proof]
+#[kani::unwind(12)]
+fn section_order_contract() {
+    section_order::<1, 1, 1, 1>(); // the single-section frame
+    section_order::<1, 1, 2, 5>(); // one group, two passes
+    section_order::<1, 2, 1, 5>(); // two groups, one pass
+    section_order::<2, 3, 2, 10>(); // LF groups, groups and passes all plural
 }
